@@ -105,26 +105,86 @@ CLAIMED["C06"] = dict(
 
 CLAIMED["C11"] = dict(
     category="model_checking",
-    text="Bounded, request side only. The MapAccess steps of the real Cookie deserializer are driven over jar templates with symbolic contents: `N=VV; M=W`, `N=\"VV\"; M=W` and `N=VV` "
+    text="Bounded. Request side: the MapAccess steps of the real Cookie deserializer are driven over jar templates with symbolic contents: `N=VV; M=W`, `N=\"VV\"; M=W` and `N=VV` "
          "(names any RFC 6265 token byte, values any cookie-octet except `%`, `=` included): every name and value decodes to what was sent, in order, double quotes stripped, nothing after the last "
-         "cookie; and `n=%XY` for all 256 escapes decodes to the byte when it is ASCII and is an error otherwise. Cookie name/value validators for all short inputs are under contract in C08.",
+         "cookie; and `n=%XY` for all 256 escapes decodes to the byte when it is ASCII and is an error otherwise. Cookie name/value validators for all short inputs are under contract in C08. Response side: SetCookieBuilder::build followed by SetCookie::from_raw on 7 enumerated CONCRETE values (plain, a literal percent escape `50%2Foff`, space and semicolon, double quotes, non-ASCII, base64 padding, empty) with Path, HttpOnly and SameSite=Lax: the emitted text is a single line `name=value *(\"; \" directive)` whose value consists of RFC 6265 cookie-octets only, and it parses back to the value given to the builder and exactly the directives given.",
     design_ref="DESIGN.md §4 C11, §8.2",
-    note="NOT under a discharged contract: decoding into serde-derived structs (the derive glue does not get through CBMC), the request's cookie iterator util::iter_cookies, and the whole "
-         "response side (SetCookieBuilder::build / SetCookie::from_raw round trip). percent-encoding and core::str::from_utf8 replaced by assumed contracts. A genuine defect found by these "
+    note="NOT under a discharged contract: decoding into serde-derived structs (the derive glue does not get through CBMC), the request's cookie iterator util::iter_cookies; on the response side only enumerated concrete values are decided (the symbolic value shapes of harness/C11/setcookie.rs need more than 20 min each and are not registered), the byte_reader crate is executed, not specified. percent-encoding and core::str::from_utf8 replaced by assumed contracts. A genuine defect found by these "
          "obligations was repaired (fix: 730e713, `=` inside a cookie value).",
     technique="Kani harness contracts over jar templates with symbolic contents (round trip against the identity encoder)",
 )
 
+CLAIMED["C09"] = dict(
+    category="model_checking",
+    text="Bounded, method level. decode(encode(v)) == v through the real URLEncodedSerializer::serialize_* and URLEncodedDeserializer::deserialize_* methods in the value place: both "
+         "booleans, Option<bool>, a derived newtype, all 128 ASCII chars (every reserved character; enumerated in 4 chunks), 8 non-ASCII chars of every UTF-8 length, integers of every width at "
+         "their boundary values (enumerated concrete values: a symbolic integer through core's Display is out of reach), the empty string, the sequences (bool, bool) and (bool, bool, bool), "
+         "three concrete pairs of strings containing `,` `&` `=` `%`. One open known finding (a sequence whose first element is the empty string loses it).",
+    design_ref="DESIGN.md §9.2, §9.3",
+    note="NOT under a discharged contract: the struct/map glue of serde-derived impls (field order, unknown extra fields), floats, string maps, QueryParams::iter, symbolic strings of 1-2 bytes, "
+         "symbolic string pairs, unit enums and the `k=v&k=v` text-vs-RFC 3986 harnesses (written, harness/C09, but 8-27 GB / no answer in 15 min each: unregistered). percent-encoding crate and core::str::from_utf8 "
+         "replaced by assumed contracts. Two genuine defects found by these obligations were repaired (fix: 7bec830 chars written raw, 41c3ccf sequences never decoded); KF-C09-empty-first-seq-element is open.",
+    technique="Kani harness contracts: round trip through the real serializer and deserializer methods per field type (symbolic where CBMC can afford it, otherwise exhaustively enumerated small domains / boundary values)",
+)
+CLAIMED["C13"] = dict(
+    category="model_checking",
+    text="Bounded. BasicAuth::matches(u, p) == (u == username && p == password) byte for byte, for 12 shapes of configured/given lengths 0..3 with symbolic ASCII contents (longer, shorter, swapped and "
+         "prefix-sharing strings are refused). <BasicAuth as FangAction>::fore and <[BasicAuth; 2] as FangAction>::fore over 20 shapes (Authorization absent / `Basic ..` / `Bearer ..` / `basic ..`; base64 "
+         "decoding fails; decoded credential of 0..4 symbolic bytes; configured pair lengths (1,1) (1,2) (2,1) (0,1)): Ok(()) iff the value starts with `Basic `, decoding succeeded, and the text before the FIRST "
+         "colon and the text after it equal a configured pair exactly; otherwise the result is 401 carrying `WWW-Authenticate: Basic ...`.",
+    design_ref="DESIGN.md §9.2",
+    note="base64 decoding (util::base64_decode_utf8) is an ASSUMED contract: the stub returns an error or an arbitrary ASCII string of the shape's length; the base64 crate is not verified. Credentials longer than "
+         "4 bytes, non-ASCII credentials and that the fang is actually installed in front of the handler (fang composition, C04) are outside the claim.",
+    technique="Kani harness contracts over enumerated shapes with symbolic contents against a reference decision procedure; dependency (base64) stubbed by an assumed contract",
+)
+CLAIMED["C14"] = dict(
+    category="model_checking",
+    text="Bounded, and relative to the list of methods registered for a path. <CORSProc as FangProc>::bite over 512 configuration/request shapes (quick tier: 16 chosen so that every option takes both values "
+         "under OPTIONS and under GET and every inner status occurs): every response carries Access-Control-Allow-Origin == configured origin, Access-Control-Allow-Credentials: true iff enabled on a non-wildcard "
+         "origin (the builder refuses credentials on `*`), the configured exposed headers; an OPTIONS response additionally the configured max-age and the configured or echoed (3 symbolic bytes) request headers, "
+         "and the inner 501 of a valid preflight becomes 200 without Content-Type/Content-Length while every other status passes through; a non-OPTIONS response gets none of the preflight-only headers and keeps "
+         "status and body declaration. Handler::default_options_with(list): 404 without Access-Control-Request-Method; 501 (valid preflight) iff the requested token (3..7 symbolic printable bytes) is exactly a listed "
+         "method, HEAD when GET is listed, or OPTIONS; otherwise 400; Access-Control-Allow-Methods is exactly the list (+HEAD with GET, +OPTIONS); plus 16 concrete look-alike tokens.",
+    design_ref="DESIGN.md §9.2",
+    note="NOT under contract: WHICH methods are registered for a path (the list is assembled by router/base.rs at registration time through HashMap and leaked closures and handed to default_options_with), "
+         "that the CORS fang wraps every response of its scope including 404s (fang scope, C04), Access-Control-Allow-Methods configured on the CORS value itself (the builder method is commented out upstream). "
+         "core::str::from_utf8 replaced by an ASCII-only assumed contract (header bytes are ASCII by construction); util::unix_timestamp stubbed.",
+    technique="Kani harness contracts over enumerated configuration/request shapes (compile-time constants) with symbolic header bytes; inner proc replaced by a stand-in",
+)
+
+CLAIMED["C17"] = dict(
+    category="model_checking",
+    text="Bounded, framing only. The per-message framing block of Response::send (Content::Stream branch) is extracted VERBATIM from the real source on every run (lib/vf.py //@extract: the lines between "
+         "`while let Some(chunk) = stream.next().await {` and `conn.write_all(&chunk).await`) and run on 10 enumerated concrete message sequences (empty message, single line, embedded LF, two messages, empty "
+         "then non-empty, field-like content `data: x`, embedded CR, CRLF, lone CR, `x CR event: y`): the frames followed by `0 CRLF CRLF` are a valid chunked body (reference reader from RFC 9112 7.1) whose content, "
+         "read by an event-stream interpreter written from the WHATWG algorithm, is exactly the produced messages in order with CRLF/CR normalised to LF: none lost, merged, split or duplicated, no event/id/retry "
+         "field, no comment or unknown-field line, nothing left undispatched.",
+    design_ref="DESIGN.md §9.1, §9.4",
+    note="Dropped by the extraction and NOT under contract: the await points of the loop (stream.next(), write_all, flush) and with them every question of pacing / producer schedule, QueueStream, the response "
+         "head (Transfer-Encoding: chunked is set by set_stream_raw) and the final zero chunk (appended by the harness as `send` does after the loop). The same contract over SYMBOLIC messages of 1-3 bytes is "
+         "written (harness/C17) but needs more than 20 min per shape under CBMC and is not registered, nor are the two sequences with a trailing LF. A genuine defect found by these obligations was repaired (fix: 22dde27, CR inside a message).",
+    technique="Kani harness contract on a block extracted verbatim from an async fn (mechanical extraction on every run), enumerated concrete inputs, reference chunked reader + event-stream interpreter as the postcondition",
+)
+
+CLAIMED["C10"] = dict(
+    category="model_checking",
+    text="Bounded, decoded-parts level. From the parts the parser produced to the typed value: Multipart::next composed with DeserializeFilesOrField (SeqAccess, deserialize_option / _map / _str) and "
+         "FileDeserializer: for a text field followed by 1..4 files under one name (1-byte symbolic filenames and contents) the files are grouped under that name and reach the target in SUBMISSION order, each with "
+         "its own filename, media type and byte-exact content, nothing beyond them, the text field stays text; Option<File> is None for an empty file input, Some(the file) for exactly one, an error for several; a "
+         "single File is that file for exactly one and an error otherwise (never undefined behaviour, never one of several); a file part into a text target and a text field into a file target are errors. The parser "
+         "itself only on decided templates: a malformed body without CRLF before the delimiter is refused, one empty text field, one empty file.",
+    design_ref="DESIGN.md §9.2, §9.3",
+    note="NOT under a discharged contract: Multipart::parse with symbolic content bytes or several parts (1-3 symbolic content bytes: timeout / out of memory; a concrete three-file body: thorough tier), so that `parts` "
+         "are in submission order with byte-exact contents is decided only for the templates; optional part headers; the derived field dispatch of the target struct (from_bytes::<T>). core::str::from_utf8 and "
+         "core::fmt::write (error texts) are stubbed. A genuine defect found by these obligations was repaired (fix: 1d0b724, unwrap_unchecked on an empty file list; earlier 78610a4).",
+    technique="Kani harness contracts on the decoded-parts layer (real Multipart::next / SeqAccess / MapAccess code) over enumerated part lists with symbolic contents; parser on concrete templates",
+)
+
 NOT_APPLICABLE = {
     "C04": "fang order is the order of side effects of opaque boxed async closures composed at configuration time; the final Node keeps only the composed closures, so no postcondition over a function result can name 'which fangs, in which order' without ghost fields in production structs (DESIGN §4 C04)",
-    "C09": "not built in the time available (planned as method-level serialize/deserialize round trips, DESIGN §4 C09); whole from_bytes::<T> through serde-derived impls does not get through CBMC's symbolic execution",
-    "C10": "template harnesses on Multipart::parse exist (harness/C10) but only the templates with EMPTY content are decided by CBMC (1-3 symbolic content bytes: timeout / out of memory), which does not decide a round-trip property; the decided templates run inside C08 and found a defect (fix: 78610a4)",
     "C12": "the decision runs through HMAC-SHA2, base64url and serde_json in one function; SHA-2 on symbolic input is out of reach for CBMC and Kani cannot stub the generic trait methods involved (DESIGN §4 C12)",
-    "C13": "a harness contract exists (harness/C13) with base64 decoding as an assumed contract, but one decided shape takes ~9 min under CBMC and others run out of memory: not reliable enough to register (DESIGN §8.2)",
-    "C14": "half of the property is whole-configuration data flow (allowed-method lists assembled during registration through HashMap/RandomState and leaked closures), not a function result; claiming it on the header matrix of CORSProc::bite alone would decide only part of it (DESIGN §4 C14)",
     "C15": "validity under JSON Schema 2020-12 and agreement of a serde_json document with the routing table are not expressible as a function contract within reach of Kani/Verus (DESIGN §4 C15)",
     "C16": "the subject is a procedural macro (proc-macro crate: no Kani harness possible) and the quantifier is over type definitions (DESIGN §4 C16)",
-    "C17": "the chunk framing is an inline block of the async fn Response::send; a harness over the whole send did not finish for the simpler Payload case (15 min), and the producer-schedule clause is not a contract (DESIGN §4 C17, §8.2)",
     "C18": "interleavings of a signal-handler thread with the accept loop over atomics: Kani has no thread support, Verus would need the code rewritten with its atomic-invariant types (a model) (DESIGN §4 C18)",
     "C19": "the served set is defined by a walk of the real file system at registration time inside a closure; Kani has no file-system model (DESIGN §4 C19)",
 }
